@@ -46,6 +46,28 @@ pub fn linfa_errors() -> Vec<(&'static str, linfa::Error, bool)> {
     ]
 }
 
+/// Narrow signature for the one characterised failure shape of error values: `linfa::Error` marks
+/// its 4th variant `NdShape` as `serde(skip)`; serde_derive then numbers the variants differently
+/// when writing (declaration index) and when reading (index among the non-skipped variants), so
+/// in formats that encode the variant by index (bincode) the variants declared AFTER `NdShape`
+/// do not come back. The narrow signature is assigned only when all of this holds: positional
+/// format, a variant declared after the skipped one, a deserialisation error.
+pub fn narrow_skipped_variant_sig(o: &mut Out, instance: &str) {
+    let variant = instance.rsplit('/').next().unwrap_or("");
+    let wrapped = instance.contains('/');
+    let is_linfa_error_value = wrapped || o.entry == "linfa.Error";
+    if !is_linfa_error_value || !(variant == "NotEnoughSamples" || variant == "MismatchedShapes") {
+        return;
+    }
+    let entry = o.entry.clone();
+    for v in o.viols.iter_mut() {
+        let positional = v.case.get("format").and_then(|f| f.as_str()) == Some("bincode");
+        if positional && v.sig == format!("{}.deserialize.error", entry) && (v.what.contains("unexpected end of file") || v.what.contains("expected variant index")) {
+            v.sig = format!("{}.deserialize.variant_index_shifted_after_skipped_ndshape", entry);
+        }
+    }
+}
+
 fn error_obs<E: std::error::Error>(e: &E) -> Ob {
     let mut o = Ob::new();
     o.st("display", e.to_string());
@@ -62,6 +84,7 @@ fn linfa_error(r: &mut Runner) {
             spec.expect_ser_refusal = refuses;
             spec.nontrivial = !matches!(e, linfa::Error::NotEnoughSamples);
             round_trip(o, &spec, &e);
+            narrow_skipped_variant_sig(o, name);
         });
     }
 }
@@ -86,6 +109,7 @@ fn platt_error(r: &mut Runner) {
             spec.expect_ser_refusal = refuses;
             spec.nontrivial = has_float || name.starts_with("LinfaError");
             round_trip(o, &spec, &e);
+            narrow_skipped_variant_sig(o, &name);
         });
     }
 }
